@@ -135,7 +135,7 @@ func buildBundle(ord *mon.Rand, ver bver.Version) *bundle.Bundle {
 	}
 	// the order of exchanges is part of the logical input (it decides the responses layout), so it is fixed
 	for i, x := range exs {
-		h := headerFrom(ord, fixedPairs(fmt.Sprintf("b%d", i), x.n), pair{"Content-Type", "text/plain"})
+		h := headerFrom(ord, fixedPairs(fmt.Sprintf("b%d", i), x.n), pair{"Content-Type", "text/plain"}, pair{"X-Folded", "text/html;\r\n charset=utf-8"}, pair{"X-Nested", "\r\r\n\n"}, pair{"X-Edge-Blanks", "  padded\t"})
 		body := bytes.Repeat([]byte{byte('a' + i)}, []int{0, 23, 24, 255, 300}[i])
 		b.Exchanges = append(b.Exchanges, &bundle.Exchange{Request: bundle.Request{URL: mustURL(x.u), Header: http.Header{}}, Response: bundle.Response{Status: 200 + i, Header: h, Body: body}})
 	}
@@ -168,7 +168,7 @@ func buildExchange(ord *mon.Rand, ver sxgver.Version) *signedexchange.Exchange {
 	if ver != sxgver.Version1b3 {
 		reqh = headerFrom(ord, fixedPairs("req", 12), pair{"Accept", "*/*"})
 	}
-	resh := headerFrom(ord, fixedPairs("res", 70), pair{"Content-Type", "text/html"}, pair{"Cache-Control", "max-age=60"})
+	resh := headerFrom(ord, fixedPairs("res", 70), pair{"Content-Type", "text/html"}, pair{"Cache-Control", "max-age=60"}, pair{"X-Folded", "text/html;\r\n charset=utf-8"}, pair{"X-Nested", "\r\r\n\n"}, pair{"X-Edge-Blanks", "  padded\t"}, pair{"X-Obs", "caf\u00e9"})
 	payload := bytes.Repeat([]byte("payload!"), 40)
 	e := signedexchange.NewExchange(ver, "https://example.com/page", "GET", reqh, 200, resh, payload)
 	if err := e.MiEncodePayload(64); err != nil {
@@ -246,7 +246,7 @@ func ops() []op {
 		return b
 	}, func(in any, w io.Writer) error { _, err := in.(*bundle.Bundle).WriteTo(w); return err }})
 	out = append(out, op{"Response.EncodeHeader", func(o *mon.Rand) any {
-		return bundle.Response{Status: 404, Header: headerFrom(o, fixedPairs("eh", 70), pair{"Content-Type", "a/b"}, pair{"Content-Type", "second"})}
+		return bundle.Response{Status: 404, Header: headerFrom(o, fixedPairs("eh", 70), pair{"Content-Type", "a/b"}, pair{"Content-Type", "second"}, pair{"X-Folded", "text/html;\r\n charset=utf-8"}, pair{"X-Nested", "\r\r\n\n"}, pair{"X-Edge-Blanks", "  padded\t"})}
 	}, func(in any, w io.Writer) error {
 		b, err := in.(bundle.Response).EncodeHeader()
 		if err == nil {
